@@ -31,4 +31,13 @@ theorem C12_template_transcription :
     declaredTables ⟨true, true, true, true, true⟩ = ["_max", "_values", "_strings", "_string_map", "_value_map"] := by
   decide
 
+/-- the model of make* (`makeSwitches`, Model/Enum.lean): on the regenerated tables of flag reads and guarded calls, each
+    helper reads exactly its own flag (makeSQL: `sql` and `gorm`), no other function of the package reads a flag, and
+    MakeData calls every helper unconditionally — so which method groups are emitted depends on the five flags alone -/
+theorem C12_flag_reads :
+    (Facts.flagReads.filter (·.1 = "internal/enumer")).map (·.2) =
+      [("makeBitwize", "bitwise"), ("makeJson", "json"), ("makeSQL", "gorm"), ("makeSQL", "sql"), ("makeText", "text")] ∧
+    (Facts.flagGuards.filter (fun g => g.1 = "internal/enumer" && g.2.1 = "MakeData")).all (fun g => g.2.2.2 = []) = true := by
+  decide
+
 end ShootVerif.Enum
